@@ -81,7 +81,7 @@ def rule_lemire_truncation(col, facts):
         conds = path_conditions(f, bb)
         many = any(strip_casts(e)[0] == "proj" and p is True for _d, e, p in conds)
         notlossy = any(strip_casts(e)[:2] == ("arg", 2) and p is False for _d, e, p in conds)
-        differ = any(strip_casts(e)[0] == "call" and strip_casts(e)[1].endswith("PartialEq::ne") and p is True and any(x[1].endswith("compute_float") for x in expr_calls(e)) for _d, e, p in conds)
+        differ = any(strip_casts(e)[0] == "call" and ((strip_casts(e)[1].endswith("PartialEq::ne") and p is True) or (strip_casts(e)[1].endswith("PartialEq::eq") and p is False)) and any(x[1].endswith("compute_float") for x in expr_calls(e)) for _d, e, p in conds)
         ok = ok or (many and notlossy and differ)
     col.check(R, "fallback-to-compute_error", ok, "compute_error is not reached exactly when !lossy && many_digits && fp != compute_float(.., w+1, ..)", f.loc())
     # compute_float's own fallback: lo == u64::MAX outside the safe window -> compute_error_scaled
@@ -90,8 +90,17 @@ def rule_lemire_truncation(col, facts):
     for bb, c, a, d, t in g.calls():
         if callee_name(c) == PF + "lemire::compute_error_scaled":
             conds = path_conditions(g, bb)
-            allones = any(strip_casts(e)[0] == "bin" and strip_casts(e)[1] == "Eq" and strip_casts(strip_casts(e)[3]) == ("k", (1 << 64) - 1) and p is True for _d, e, p in conds)
+            def _is_max(x):
+                x = strip_casts(x)
+                return x == ("k", (1 << 64) - 1) or (x[0] == "kc" and (last_seg(x[1]) == "MAX" or x[2] == (1 << 64) - 1))
+            allones = any(strip_casts(e)[0] == "bin" and strip_casts(e)[1] == "Eq" and (_is_max(strip_casts(e)[3]) or _is_max(strip_casts(e)[2])) and p is True for _d, e, p in conds)
             window = any(strip_casts(e)[0] == "call" and strip_casts(e)[1].endswith("RangeInclusive::contains") and p is False for _d, e, p in conds)
+            if not window:
+                # `q < -27 || q > 55` spelt with comparisons: both bounds of the safe window are compared with q somewhere
+                # in the function and the fallback is control-dependent on at least one of those tests
+                txt = " ".join(show(op_expr(g, b["t"]["d"])) for b in g.blocks if b["t"]["k"] == "switch")
+                txt += " " + " ".join(show(rvalue_expr(g, st[2], 0)) for b in g.blocks for st in b["s"] if st[0] == "=" and st[2][0] == "bin" and st[2][1] in ("Lt", "Le", "Gt", "Ge"))
+                window = "-27" in txt and "55" in txt
             nl = any(strip_casts(e)[:2] == ("arg", 3) and p is False for _d, e, p in conds)
             ok = allones and window and nl
     col.check(R, "compute_float-ambiguous-product", ok, "compute_float no longer returns the error marker when lo == 0xFFFF_FFFF_FFFF_FFFF outside the safe exponent window (and !lossy)", g.loc())
